@@ -118,8 +118,21 @@ RecInside(r, st) == r[6] + r[5] <= Len(st)
 \* r is a record for entry e
 RecFor(r, e) == /\ r[1] = e.p /\ Understood(r[1], r[2]) /\ r[4] = e.n /\ e.t \in TagsOf(r[1], r[3])
 
-NEncodeOK ==
-  /\ ~E.panic /\ E.walkok
+\* Offsets and lengths are 16-bit fields.  pay = storage bytes a string needs.  Whatever order an
+\* encoder stores the strings in (and without any sharing), the last one starts at total - (its own
+\* size) <= total - (smallest size): if that fits the offset field, every encoder must succeed.
+\* Beyond that the encoder may refuse (Encode has no error result: it panics) or write a faithful
+\* table; it must not write an offset modulo 2^16.
+FieldMax16 == 65535
+Pay(e)  == IF e.p = 1 THEN Len(e.s) ELSE 2 * Units(e.s)
+Pays    == SelectSeq([i \in 1..Len(info) |-> Pay(info[i])], LAMBDA x : x > 0)
+MustFit == \/ Pays = <<>>
+           \/ /\ \A i \in 1..Len(Pays) : Pays[i] <= FieldMax16
+              /\ FoldLeft(LAMBDA a, x : a + x, 0, Pays) - FoldLeft(LAMBDA a, x : IF x < a THEN x ELSE a, Pays[1], Pays)
+                   <= FieldMax16
+
+NEncodeFaithful ==
+  /\ E.walkok
   /\ E.version \in {0, 1}
   /\ E.count = Len(E.recs)
   /\ E.so >= E.hend /\ E.so <= E.total                 \* the storage area starts after the records
@@ -135,11 +148,14 @@ NEncodeOK ==
   /\ \A e \in Present(info) :                            \* every representable string is written
        Representable(e.p, e.s) => \E j \in 1..Len(E.recs) : RecFor(E.recs[j], e)
 
+NEncodeOK == IF E.panic THEN ~MustFit ELSE NEncodeFaithful
+
 NEncode == Is("nencode") /\ Judge(NEncodeOK) /\ UNCHANGED <<langs, info>> /\ Consume
 
 NDecodeOK ==
-  /\ ~E.failed
-  /\ Range(E.dec) = {e \in Present(info) : Representable(e.p, e.s)}    \* decoded = original
+  \/ E.skipped                                            \* Encode refused the table (judged by nencode)
+  \/ /\ ~E.failed
+     /\ Range(E.dec) = {e \in Present(info) : Representable(e.p, e.s)}    \* decoded = original
 
 NDecode == Is("ndecode") /\ Judge(NDecodeOK) /\ UNCHANGED <<langs, info>> /\ Consume
 
